@@ -2,21 +2,30 @@ import MythVerif.Proofs.WsQueueTsoStepO1
 import MythVerif.Proofs.WsQueueTsoStepO2
 import MythVerif.Proofs.WsQueueTsoStepO3
 import MythVerif.Proofs.WsQueueTsoStepO4
+import MythVerif.Proofs.WsQueueTsoStepR1
+import MythVerif.Proofs.WsQueueTsoStepR2
+import MythVerif.Proofs.WsQueueTsoStepR3
+import MythVerif.Proofs.WsQueueTsoStepF8
+import MythVerif.Proofs.WsQueueTsoStepC1
 import MythVerif.Proofs.WsQueueTsoStepU1
 import MythVerif.Proofs.WsQueueTsoStepU2
 import MythVerif.Proofs.WsQueueTsoStepT1
 import MythVerif.Proofs.WsQueueTsoStepT2
 import MythVerif.Proofs.WsQueueTsoStepT3
-import MythVerif.Proofs.WsQueueTsoStepF1
 import MythVerif.Proofs.WsQueueTsoStepF2
-import MythVerif.Proofs.WsQueueTsoStepF3
 import MythVerif.Proofs.WsQueueTsoStepF4
 import MythVerif.Proofs.WsQueueTsoStepF5
-import MythVerif.Proofs.WsQueueTsoStepF6
-import MythVerif.Proofs.WsQueueTsoStepF7
 import MythVerif.Proofs.WsQueueTsoStepP1
 import MythVerif.Proofs.WsQueueTsoStepP2
 import MythVerif.Proofs.WsQueueTsoStepK1
+import MythVerif.Proofs.WsQueueTsoStepW1
+import MythVerif.Proofs.WsQueueTsoStepW2
+import MythVerif.Proofs.WsQueueTsoStepW3
+import MythVerif.Proofs.WsQueueTsoStepV1
+import MythVerif.Proofs.WsQueueTsoStepV2
+import MythVerif.Proofs.WsQueueTsoStepV3
+import MythVerif.Proofs.WsQueueTsoStepF9
+import MythVerif.Proofs.WsQueueTsoFlush
 /-! The TSO invariant is inductive; it holds in every reachable state of the store-buffer machine
     with the fences of the source. -/
 namespace MythVerif.WsqTso
@@ -29,6 +38,12 @@ theorem stepO_inv (s s' : St) : Inv s → stepO s = some s' → Inv s' := by
   | stuck => simp [stepO, hpc] at hs
   | pu0 e => exact o_pu0 s s' e h hpc hs
   | pu0f e t => exact o_pu0f s s' e t h hpc hs
+  | pul e => exact o_pul s s' e h hpc hs
+  | pub e => exact o_pub s s' e h hpc hs
+  | pum e off => exact o_pum s s' e off h hpc hs
+  | pus e off => exact o_pus s s' e off h hpc hs
+  | puv e off => exact o_puv s s' e off h hpc hs
+  | pux e t => exact o_pux s s' e t h hpc hs
   | pu1 e t => exact o_pu1 s s' e t h hpc hs
   | pu2 e t => exact o_pu2 s s' e t h hpc hs
   | pq => exact o_pq s s' h hpc hs
@@ -40,6 +55,8 @@ theorem stepO_inv (s s' : St) : Inv s → stepO s = some s' → Inv s' := by
   | po4 t => exact o_po4 s s' t h hpc hs
   | po5 t x => exact o_po5 s s' t x h hpc hs
   | po5b t r => exact o_po5b s s' t r h hpc hs
+  | po5c t r => exact o_po5c s s' t r h hpc hs
+  | po5d r => exact o_po5d s s' r h hpc hs
   | po6 r => exact o_po6 s s' r h hpc hs
   | po7 => exact o_po7 s s' h hpc hs
   | po8 => exact o_po8 s s' h hpc hs
@@ -47,10 +64,19 @@ theorem stepO_inv (s s' : St) : Inv s → stepO s = some s' → Inv s' := by
   | stuckL => simp [stepO, hpc] at hs
   | ptl e => exact o_ptl s s' e h hpc hs
   | pt1 e => exact o_pt1 s s' e h hpc hs
+  | pt2 e => exact o_pt2 s s' e h hpc hs
+  | pt3 e off => exact o_pt3 s s' e off h hpc hs
+  | pt4 e off => exact o_pt4 s s' e off h hpc hs
+  | pt5 e off => exact o_pt5 s s' e off h hpc hs
   | pt6 e => exact o_pt6 s s' e h hpc hs
   | pt7 e b => exact o_pt7 s s' e b h hpc hs
   | pt8 e b => exact o_pt8 s s' e b h hpc hs
   | pt9 => exact o_pt9 s s' h hpc hs
+  | assertFail => simp [stepO, hpc] at hs
+  | cll => exact o_cll s s' h hpc hs
+  | cl1 => exact o_cl1 s s' h hpc hs
+  | cl2 => exact o_cl2 s s' h hpc hs
+  | cl3 => exact o_cl3 s s' h hpc hs
 
 theorem stepT_inv (s s' : St) (p : Pid) : Inv s → stepT s p = some s' → Inv s' := by
   intro h hs
@@ -77,9 +103,34 @@ theorem stepT_inv (s s' : St) (p : Pid) : Inv s → stepT s p = some s' → Inv 
   | pk1 => exact t_pk1 s s' p h hpc hs
   | pk2 b => exact t_pk2 s s' p b h hpc hs
   | pk3 b => exact t_pk3 s s' p b h hpc hs
+  | wq0 => exact t_wq0 s s' p h hpc hs
+  | wq1 t => exact t_wq1 s s' p t h hpc hs
+  | wtl => exact t_wtl s s' p h hpc hs
+  | wk1 => exact t_wk1 s s' p h hpc hs
+  | wkf b => exact t_wkf s s' p b h hpc hs
+  | wk2 b => exact t_wk2 s s' p b h hpc hs
+  | wk3 b => exact t_wk3 s s' p b h hpc hs
+  | wkd b r => simp [stepT, hpc] at hs
+  | wk4 r => exact t_wk4 s s' p r h hpc hs
+  | wk4u r => exact t_wk4u s s' p r h hpc hs
+  | wk5 b => exact t_wk5 s s' p b h hpc hs
+  | wk6 => exact t_wk6 s s' p h hpc hs
+  | vq0 => exact t_vq0 s s' p h hpc hs
+  | vq1 t => exact t_vq1 s s' p t h hpc hs
+  | vc0 => exact t_vc0 s s' p h hpc hs
+  | vl => exact t_vl s s' p h hpc hs
+  | vc1 => exact t_vc1 s s' p h hpc hs
+  | vk1 => exact t_vk1 s s' p h hpc hs
+  | vkf b => exact t_vkf s s' p b h hpc hs
+  | vk2 b => exact t_vk2 s s' p b h hpc hs
+  | vk3 b => exact t_vk3 s s' p b h hpc hs
+  | vk4 b r => exact t_vk4 s s' p b r h hpc hs
+  | vk5 b => exact t_vk5 s s' p b h hpc hs
+  | vu => exact t_vu s s' p h hpc hs
+  | vr => exact t_vr s s' p h hpc hs
 
-set_option maxHeartbeats 1000000 in
-theorem callO_inv (s s' : St) (pc : OPc) (hpc : (∃ e, pc = .pu0 e) ∨ pc = .pq ∨ (∃ e, pc = .ptl e)) :
+set_option maxHeartbeats 4000000 in
+theorem callO_inv (s s' : St) (pc : OPc) (hpc : (∃ e, pc = .pu0 e) ∨ pc = .pq ∨ pc = .cll ∨ (∃ e, pc = .ptl e)) :
     Inv s → (match s.opc with | .idle => some { s with opc := pc } | _ => none) = some s' → Inv s' := by
   intro h hs
   split at hs
@@ -87,12 +138,12 @@ theorem callO_inv (s s' : St) (pc : OPc) (hpc : (∃ e, pc = .pu0 e) ∨ pc = .p
     simp at hs; subst hs
     cases h
     simp only [heq, ownerLocked, carry, resetting, ownerFlight] at *
-    rcases hpc with ⟨e, rfl⟩ | rfl | ⟨e, rfl⟩
+    rcases hpc with ⟨e, rfl⟩ | rfl | rfl | ⟨e, rfl⟩
     all_goals tso_finish
   · simp at hs
 
-set_option maxHeartbeats 1000000 in
-theorem callT_inv (s s' : St) (p : Pid) (pc : TPc) (hpc : pc = .tq0 ∨ pc = .kq0 ∨ ∃ e, pc = .tpl e) :
+set_option maxHeartbeats 4000000 in
+theorem callT_inv (s s' : St) (p : Pid) (pc : TPc) (hpc : pc = .tq0 ∨ pc = .kq0 ∨ pc = .wq0 ∨ pc = .vq0 ∨ ∃ e, pc = .tpl e) :
     Inv s → (match s.tpc p with | .idle => some { s with tpc := upd s.tpc p pc } | _ => none) = some s' → Inv s' := by
   intro h hs
   split at hs
@@ -100,7 +151,7 @@ theorem callT_inv (s s' : St) (p : Pid) (pc : TPc) (hpc : pc = .tq0 ∨ pc = .kq
     simp at hs; subst hs
     cases h
     simp only [ownerLocked, carry, resetting, ownerFlight] at *
-    rcases hpc with rfl | rfl | ⟨e, rfl⟩
+    rcases hpc with rfl | rfl | rfl | rfl | ⟨e, rfl⟩
     all_goals tso_finish
   · simp at hs
 
@@ -113,12 +164,13 @@ theorem f_T (s s' : St) (p : Pid) : Inv s → step s (.flushT p) = some s' → I
     obtain ⟨hl, hcase⟩ := thief_buf_shape s h p st rest hb
     simp at hs; subst hs
     rcases hcase with ⟨b, hpc, rfl, rfl, hlb, htr⟩ | ⟨hpc, rfl, rfl, htr⟩ | ⟨e, hpc, rfl, rfl⟩ |
-      ⟨e, ok, hpc, rfl, rfl⟩ | ⟨e, ok, hpc, rfl, rfl, hp⟩
+      ⟨e, ok, hpc, rfl, rfl⟩ | ⟨e, ok, hpc, rfl, rfl, hp⟩ | ⟨x, rfl, hc⟩
     · exact f_T_inc s p b h hl hb hpc hlb htr
     · exact f_T_rb s p h hl hb hpc htr
     · exact f_T_ptr3 s p e h hl hb hpc
     · exact f_T_ptr4 s p e ok h hl hb hpc
     · exact f_T_baseI s p e ok h hl hb hpc hp
+    · exact f_T_cache s p x rest h hl hb hc
   · simp at hs
 
 theorem flushO_inv (s s' : St) : Inv s → step s .flushO = some s' → Inv s' := by
@@ -133,6 +185,8 @@ theorem flushO_inv (s s' : St) : Inv s → step s .flushO = some s' → Inv s' :
     | ptr i x => exact f_O_ptr s s' i x rest h hb hs.symm
     | unlock => exact f_O_unlock s s' rest h hb hs.symm
     | baseI v e => exact f_O_baseI s s' v e rest h hb hs.symm
+    | shift lo hi off => exact f_O_shift s s' lo hi off rest h hb hs.symm
+    | cache x => exact f_O_cache s s' x rest h hb hs.symm
   · simp at hs
 
 theorem step_inv (s : St) (l : Lbl) (s' : St) : Inv s → step s l = some s' → Inv s' := by
@@ -140,12 +194,16 @@ theorem step_inv (s : St) (l : Lbl) (s' : St) : Inv s → step s l = some s' →
   cases l with
   | oPush e => exact callO_inv s s' _ (Or.inl ⟨e, rfl⟩) h hs
   | oPop => exact callO_inv s s' _ (Or.inr (Or.inl rfl)) h hs
-  | oPut e => exact callO_inv s s' _ (Or.inr (Or.inr ⟨e, rfl⟩)) h hs
+  | oPut e => exact callO_inv s s' _ (Or.inr (Or.inr (Or.inr ⟨e, rfl⟩))) h hs
+  | oClear => exact callO_inv s s' _ (Or.inr (Or.inr (Or.inl rfl))) h hs
   | o => exact stepO_inv s s' h hs
   | flushO => exact flushO_inv s s' h hs
   | tTake p => exact callT_inv s s' p _ (Or.inl rfl) h hs
-  | tPass p e => exact callT_inv s s' p _ (Or.inr (Or.inr ⟨e, rfl⟩)) h hs
+  | tPass p e => exact callT_inv s s' p _ (Or.inr (Or.inr (Or.inr (Or.inr ⟨e, rfl⟩)))) h hs
   | tPeek p => exact callT_inv s s' p _ (Or.inr (Or.inl rfl)) h hs
+  | tWTake p => exact callT_inv s s' p _ (Or.inr (Or.inr (Or.inl rfl))) h hs
+  | tWPeek p => exact callT_inv s s' p _ (Or.inr (Or.inr (Or.inr (Or.inl rfl)))) h hs
+  | tDecide p a => exact d_wkd s s' p a h hs
   | t p => exact stepT_inv s s' p h hs
   | flushT p => exact f_T s s' p h hs
 
